@@ -17,6 +17,7 @@ pub struct Ledger {
     pub entries: HashMap<[u8; 32], (u128, bool)>,
     /// answer for hashes that are not in `entries`
     pub default_paid: Option<u128>,
+    unavailable: bool,
 }
 
 pub struct VaultStub {
@@ -64,6 +65,10 @@ impl VaultStub {
     }
     pub fn set_default(&self, paid: Option<u128>) {
         self.ledger.lock().expect("ledger").default_paid = paid;
+    }
+    /// the endpoint answers every verifyPayment call with a JSON-RPC error (rate limited / node down)
+    pub fn set_unavailable(&self, on: bool) {
+        self.ledger.lock().expect("ledger").unavailable = on;
     }
 }
 
@@ -135,6 +140,9 @@ fn handle_body(body: &[u8], ledger: &Arc<Mutex<Ledger>>, calls: &Arc<AtomicU64>,
                     Ok(call) => {
                         calls.fetch_add(1, Ordering::SeqCst);
                         let l = ledger.lock().expect("ledger");
+                        if l.unavailable {
+                            return serde_json::json!({"jsonrpc": "2.0", "id": id, "error": {"code": -32005, "message": "rate limited"}});
+                        }
                         let hashes: Vec<[u8; 32]> = call._payments.iter().map(|p| p.quoteHash.0).collect();
                         seen.lock().expect("seen").push(hashes.clone());
                         let mut answers: Vec<([u8; 32], u128, bool)> = hashes
